@@ -994,6 +994,10 @@ func genGoMiniAll() []*leanFile {
 		[]string{cl + "commitlog.go"},
 		map[string][]string{cl + "commitlog.go": {"commitLog.waitForHW"}},
 		clConsts)})
+	out = append(out, &leanFile{name: "GoActivity", raw: genGoMini("GoActivity",
+		[]string{sv + "activity.go"},
+		map[string][]string{sv + "activity.go": {"activityManager.publishActivityEvent", "computeActivityPublishBackoff"}},
+		[]string{sv + "activity.go"})})
 	en := "server/encryption/"
 	out = append(out, &leanFile{name: "GoSeal", raw: genGoMini("GoSeal",
 		[]string{en + "localkey_handler.go"},
